@@ -45,6 +45,7 @@ type Contract struct {
 	hints    []*Clause
 	split    bool // one postcondition obligation per return site
 	prepare  []string
+	frameWithout []string
 }
 
 func (c *Contract) get(kind string) []*Clause {
@@ -145,6 +146,11 @@ func parseContracts(pkg *packages.Package) ([]*Contract, error) {
 					cur.inline = true
 				case "split":
 					cur.split = true
+				case "frame":
+					// frame without a,b,c: invariant labels left out when proving frame conditions
+					if strings.HasPrefix(rest, "without ") {
+						cur.frameWithout = strings.Split(strings.TrimSpace(strings.TrimPrefix(rest, "without ")), ",")
+					}
 				case "prepare":
 					// Go statement(s) run on generated inputs before the contract is executed
 					// (steers the bounded input generator into the precondition; not part of the proof)
@@ -188,8 +194,8 @@ func parseContracts(pkg *packages.Package) ([]*Contract, error) {
 					if err != nil {
 						return nil, fmt.Errorf("%s: bad loop ordinal", pos)
 					}
-					if fs[1] != "invariant" && fs[1] != "decreases" && fs[1] != "hint" {
-						return nil, fmt.Errorf("%s: loop clause must be invariant, decreases or hint", pos)
+					if fs[1] != "invariant" && fs[1] != "decreases" && fs[1] != "hint" && fs[1] != "step" {
+						return nil, fmt.Errorf("%s: loop clause must be invariant, decreases, step or hint", pos)
 					}
 					cl := &Clause{kind: fs[1], text: fs[2], loop: k, pos: pos}
 					cl.setLabel(cl.text)
